@@ -129,6 +129,43 @@ Theorem C18_terminates_right_session :
 Proof. exact terminates_right_session. Qed.
 Print Assumptions C18_terminates_right_session.
 
+(* A request x carries r_toks x = the values of id_token_hint and r_form x = every other
+   parameter as sent (http.Request.Form order: body first, then query); r_tok, r_client, r_uri,
+   r_state = the LAST value of the respective name.  A parameter with any other name -
+   logout_hint, ui_locales, unknown names - wherever it stands, changes nothing about what the
+   validator sees. *)
+Theorem C18_extra_parameter_irrelevant :
+  forall (keys : keyset) (algs : list string) (x : ereq) (a b : list (string * string)) (k v : string),
+    r_form x = a ++ (k, v) :: b ->
+    k <> "client_id" -> k <> "post_logout_redirect_uri" -> k <> "state" ->
+    to_esreq keys algs (with_form x (a ++ b)) = to_esreq keys algs x.
+Proof. exact extra_parameter_irrelevant. Qed.
+Print Assumptions C18_extra_parameter_irrelevant.
+
+(* Of a repeated parameter only the last value counts: an earlier value can be dropped. *)
+Theorem C18_repeated_parameter_last_counts :
+  forall (keys : keyset) (algs : list string) (x : ereq) (a b : list (string * string)) (k v v' : string),
+    r_form x = a ++ (k, v) :: b -> In v' (values_of k b) ->
+    to_esreq keys algs (with_form x (a ++ b)) = to_esreq keys algs x.
+Proof. exact repeated_parameter_last_counts. Qed.
+Print Assumptions C18_repeated_parameter_last_counts.
+
+(* The user handed to TerminateSession / TerminateSessionFromRequest is determined by the (last)
+   id_token_hint alone - its subject if it is validly signed under the key set designated for
+   hints, the empty user otherwise - whatever else (r_form) the request carries. *)
+Theorem C18_terminated_user_from_hint_only :
+  forall (pmatch : string -> string -> pres) (uparse : string -> option purl)
+         (default_uri : string) (ts : tsfr) (cs : list lclient) (opts : list popt) (x : ereq),
+    let h := classify (designated_keys opts) (designated_algs opts) (r_issuer x) (r_keys x) (r_tok x) in
+    (forall loc user sc,
+       end_session pmatch uparse default_uri ts cs (r_router x) (model_esreq opts x) = ERedirect loc (user, sc) ->
+       user = hint_sub h) /\
+    (forall s c user sc,
+       end_session pmatch uparse default_uri ts cs (r_router x) (model_esreq opts x) = EPage s c (Some (user, sc)) ->
+       user = hint_sub h).
+Proof. exact terminated_user_from_hint_only. Qed.
+Print Assumptions C18_terminated_user_from_hint_only.
+
 (* With a state, the Location is the parsed target's prefix, "?", a query string and the
    fragment, and ParseQuery of that query string returns the target's own pairs with
    ("state", state) inserted: the state comes back unchanged, whatever bytes it has. *)
